@@ -11,7 +11,7 @@ func init() {
 	register(&propDef{
 		ID: "C05",
 		Info: propInfo{
-			Technique: "path analysis + who-may-call + job-status table (finite-domain propagation) on the type-checked AST",
+			Technique:   "path analysis + who-may-call + job-status table (finite-domain propagation) on the type-checked AST",
 			Explanation: "Decides who can release a handle's waiters and in which order: (R05.1) in the completion callback the worker function call precedes the Finished store, which precedes exactly one Close; (R05.2) the job's WaitGroup is released only in job.Close, the batch counter only in the group Close methods, the counter's inner WaitGroup only in WgCounter.Done; Close on a job is called only from the completion callback, reject branches, Purge and sibling Close methods; (R05.3) each single-job constructor arms the WaitGroup with exactly one Add(1); NewWgCounter adds the same n to counter and WaitGroup; every AddAll passes len(items) of the slice it ranges over to the group constructor, which passes it on to counter and stream; (R05.4) every Close implementation, from each of the five job states: success only from Created/Queued/Finished, with ack before the (compare-and-swap) transition to Closed and exactly one release after it; ErrJobProcessing / ErrJobAlreadyClosed leave status and waiters untouched; a result/error job closes its response only after a successful close; (R05.5) Response.Send stores the value before sending it, Response() falls back to the stored value only when the channel is closed, per-job responses have capacity 1.",
 			NotDecided:  []string{"interleavings of several waiters (sync.WaitGroup is trusted)", "that Wait cannot block for ever under every interleaving of Close/Purge with dispatch (needs a model)", "user code that never returns"},
 			Assumptions: []string{"sync.WaitGroup semantics", "the job status table is a sequential semantics per job"},
